@@ -236,6 +236,12 @@ fn is_identifier_continue(c: char) -> bool {
         && c != '⋅'
 }
 
+/// verification hook: the tokenizer's identifier character classes (read-only)
+#[cfg(feature = "verif")]
+pub fn verif_identifier_char_class(c: char) -> (bool, bool) {
+    (is_identifier_start(c), is_identifier_continue(c))
+}
+
 #[derive(Debug, Clone, Copy, PartialEq, Eq)]
 pub enum ScopeType {
     Curly,
